@@ -97,6 +97,10 @@ func runC13(src sim.Source, o Opts) *Result {
 		routeTS = 2
 	}
 	cfg := world.Cfg{NoMethod: true, AutoOptions: true, GlobalTS: globalTS}
+	if ng == 0 && !useDefault && src.Intn("nospy", 2) == 1 {
+		cfg.NoRedirectSpy = true // a router without a single global middleware
+		res.inc("config_no_global_middleware_at_all")
+	}
 	w, err := world.Build(cfg, opts...)
 	if err != nil {
 		res.Trouble = err.Error()
@@ -116,8 +120,22 @@ func runC13(src sim.Source, o Opts) *Result {
 	nr := 2 + src.Intn("nroutes", 4)
 	var routes []rdef
 	nextMW := 200
+	// one option VALUE reused as the first middleware option of every route (3 or 5 middleware in it): what a route
+	// appends afterwards must never land in memory shared with the other routes built from the same value
+	var sharedIDs []int
+	var shared fox.RouteOption
+	if src.Intn("sharedoption", 2) == 1 {
+		var ms []fox.MiddlewareFunc
+		for j, n := 0, sim.Pick(src, "nshared", []int{3, 5}); j < n; j++ {
+			sharedIDs = append(sharedIDs, 280+j)
+			ms = append(ms, traceMW(280+j))
+		}
+		shared = fox.WithMiddleware(ms...)
+		res.inc("config_shared_route_option")
+	}
 	for i := 0; i < nr; i++ {
 		r := rdef{Method: "GET", Pattern: fmt.Sprintf("/r%d/{x}", i), Tag: i + 1, Via: sim.Pick(src, "via", []string{"newroute", "newroute", "handle"})}
+		r.MW = append(r.MW, sharedIDs...)
 		for j, n := 0, src.Intn("nroutemw", 4); j < n; j++ {
 			nextMW++
 			r.MW = append(r.MW, nextMW)
@@ -138,7 +156,13 @@ func runC13(src sim.Source, o Opts) *Result {
 				if i%ntasks != t {
 					continue
 				}
-				ropts := world.FoxOpts(r.Tag, world.RouteOpt{MW: r.MW, TS: routeTS})
+				ropts := world.FoxOpts(r.Tag, world.RouteOpt{TS: routeTS})
+				if shared != nil {
+					ropts = append(ropts, shared)
+				}
+				for _, id := range r.MW[len(sharedIDs):] {
+					ropts = append(ropts, fox.WithMiddleware(traceMW(id)))
+				}
 				if r.Via == "handle" {
 					if _, err := w.R.Handle(r.Method, r.Pattern, world.Handler(r.Tag), ropts...); err != nil {
 						errs[t] = err.Error()
@@ -218,7 +242,7 @@ func runC13(src sim.Source, o Opts) *Result {
 		!check("no route (method without routes, 405 on)", world.Probe{Method: "PURGE", Path: "/nothing/here"}, model.KNoRoute, nil) ||
 		!check("no method", world.Probe{Method: "POST", Path: "/r0/v"}, model.KNoMethod, nil) ||
 		!check("options", world.Probe{Method: "OPTIONS", Path: "/r0/v"}, model.KOptions, nil) ||
-		!check("redirect", world.Probe{Method: "GET", Path: "/r0/v/"}, model.KRedirect, nil) {
+		(!cfg.NoRedirectSpy && !check("redirect", world.Probe{Method: "GET", Path: "/r0/v/"}, model.KRedirect, nil)) {
 		return res
 	}
 	// a route that ignores trailing slashes, reached with the slash toggled (its own dispatch branch in ServeHTTP): same
